@@ -129,6 +129,14 @@ func runReloadHistory(hot bool, first bool, ops string) (line string, c18 string
 				if ct := w.h["Content-Type"]; len(ct) != 1 || ct[0] != "text/html; charset=utf-8" {
 					c18 = fmt.Sprintf("content type not set on an empty header: %v", ct)
 				}
+				// a handler that set the header - even to an empty first value - has set one
+				for _, set := range [][]string{{""}, {"", "text/plain"}} {
+					w3 := &respWriter{h: http.Header{"Content-Type": append([]string{}, set...)}}
+					inst.WriteContentType(w3)
+					if ct := w3.h["Content-Type"]; len(ct) != len(set) || ct[0] != set[0] {
+						c18 = fmt.Sprintf("content type %q set by the handler was overwritten: %q", set, ct)
+					}
+				}
 				w2 := &respWriter{h: http.Header{"Content-Type": {"x/y"}}}
 				inst.WriteContentType(w2)
 				if ct := w2.h["Content-Type"]; len(ct) != 1 || ct[0] != "x/y" {
